@@ -72,3 +72,57 @@ Theorem C05_case_maps : forall s,
   lower (lower s) = lower s /\ upper (upper s) = upper s /\ length (lower s) = length s /\ length (upper s) = length s.
 Proof. intro s. repeat split; [apply lower_idem|apply upper_idem|apply lower_length|apply upper_length]. Qed.
 Print Assumptions C05_case_maps.
+
+(* ---- soundness, normal forms, fixed points (all classes, typed containers by induction) ---- *)
+(* meets = the constraints the field declares; normal = meets + every transform is the identity;
+   plain x = the input is plain data (no proxies; byte strings hold bytes) *)
+Theorem C05_validate_sound : forall orc f x v,
+  plain x = true -> validate_with orc f x = Ok v -> meets orc f v.
+Proof. exact validate_sound. Qed.
+Print Assumptions C05_validate_sound.
+
+Theorem C05_validate_normal : forall orc f x v,
+  has_F13 f = false -> plain x = true -> validate_with orc f x = Ok v -> normal orc f v.
+Proof. exact validate_normal. Qed.
+Print Assumptions C05_validate_normal.
+
+Theorem C05_validate_fixpoint : forall orc f v, normal orc f v -> validate_with orc f v = Ok v.
+Proof. exact validate_fixpoint. Qed.
+Print Assumptions C05_validate_fixpoint.
+
+(* ---- the on-disk round trip: every class except typed DictField (rt_dom), typed lists of anything by induction ---- *)
+Theorem C05_basic_roundtrip_partial : forall orc f v,
+  normal orc f v -> rt_dom f v ->
+  exists b p, to_basic f v = Ok b /\ to_python_with orc f b = Ok p /\ validate_with orc f p = Ok v.
+Proof. exact basic_roundtrip_partial. Qed.
+Print Assumptions C05_basic_roundtrip_partial.
+
+Theorem C05_unset_typed_container : forall orc fid req it kf vf,
+  to_basic (FListT fid req it) PNone = Ok PNone /\
+  to_python_with orc (FListT fid req it) PNone = Ok (PList (fid + 1)%N []) /\
+  to_basic (FDictT fid req kf vf) PNone = Ok PNone /\
+  to_python_with orc (FDictT fid req kf vf) PNone = Ok (PDict (fid + 1)%N []).
+Proof. exact unset_typed_container_roundtrip. Qed.
+Print Assumptions C05_unset_typed_container.
+
+(* ---- named corner rules ---- *)
+Theorem C05_required_empty_rejected : forall orc,
+  (forall o, validate_with orc (FStr true o) (PStr []) = Err EValue) /\
+  (forall t, validate_with orc (FListU true) (PList t []) = Err EValue) /\
+  (validate_with orc (FListU true) (PTuple []) = Err EValue) /\
+  (forall fid it t, validate_with orc (FListT fid true it) (PList t []) = Err EValue) /\
+  (forall t, validate_with orc (FDictU true) (PDict t []) = Err EValue) /\
+  (forall fid kf vf t, validate_with orc (FDictT fid true kf vf) (PDict t []) = Err EValue) /\
+  (forall f, field_req f = true -> validate_with orc f PNone = Err EValue).
+Proof. exact required_empty_rejected. Qed.
+Print Assumptions C05_required_empty_rejected.
+
+Theorem C05_tuple_stored_as_list : forall orc req l v,
+  validate_with orc (FListU req) (PTuple l) = Ok v -> v = PList 0%N l.
+Proof. exact tuple_stored_as_list. Qed.
+Print Assumptions C05_tuple_stored_as_list.
+
+Theorem C05_numbers_reject_bool : forall mn mx fmn fmx b,
+  int_validate mn mx (PBool b) = Err EValue /\ float_validate fmn fmx (PBool b) = Err EValue.
+Proof. intros; split; [apply int_rejects_bool|apply float_rejects_bool]. Qed.
+Print Assumptions C05_numbers_reject_bool.
